@@ -384,6 +384,24 @@ def chk_vegamag(case, acc, seed):
         if not np.allclose(phys, base, rtol=1e-9):
             acc.violation('vegamag:sample-unit-dependence', dict(case, wu=wu),
                           f'a Vega-magnitude blackbody built in {wu0} and sampled in {wu} is {np.max(phys / base):.6g} times its own values')
+    # a Vega-magnitude source on the right of a spectrum operation whose left operand is held in another unit: what the same source
+    # built in the left operand's unit gives
+    try:
+        other = 'um' if CANON[wu0] != 'um' else 'nm'
+        left = rad.Spectrum(lam_m / IN_M[other], np.array([0.5, 1.0, 2.0, 1.5]), waveunit=other)
+        bb_native = rad.Blackbody.vegamag(lam_m / IN_M[other], 5000.0, 3.0, band, waveunit=other, valueunit=vu)
+        for opn in ('multiply', 'add'):
+            bb_here = rad.Blackbody.vegamag(lam_m / IN_M[wu0], 5000.0, 3.0, band, waveunit=wu0, valueunit=vu)
+            r1 = getattr(left.copy(), opn)(bb_here)
+            r2 = getattr(left.copy(), opn)(bb_native)
+            w1_, w2_ = np.asarray(r1.wave, float), np.asarray(r2.wave, float)
+            if w1_.shape != w2_.shape:
+                continue                 # the common grid's length can differ by one sample through unit-conversion rounding (C13's business)
+            # (the two end samples may take the fill value when a unit conversion moves an end point across the range end)
+            if not (np.allclose(w1_, w2_, rtol=1e-9) and np.allclose(np.asarray(r1.value, float)[1:-1], np.asarray(r2.value, float)[1:-1], rtol=1e-6)):
+                acc.violation('vegamag:as-right-operand', dict(case, op=opn), f'spectrum({other}) {opn} vegamag-source({wu0}) is {np.max(np.asarray(r1.value, float)[1:-1] / np.asarray(r2.value, float)[1:-1]):.6g} times the same operation with the source built in {other}')
+    except Exception as e:
+        acc.violation(f'vegamag:as-right-operand:raises:{type(e).__name__}', case, repr(e))
     acc.cls('vegamag')
     acc.case(case, outcome='vegamag')
 
